@@ -22,6 +22,11 @@ fn cfg(disk: bool) -> WorldCfg {
     WorldCfg { disk, roa_aggregate_threshold: 100, roa_deaggregate_threshold: 90, ..WorldCfg::default() }
 }
 
+/// With the in-memory cache of command histories (krill's default).
+fn cfg_history(disk: bool) -> WorldCfg {
+    WorldCfg { history_cache: true, ..cfg(disk) }
+}
+
 fn build(disk: bool) -> Result<World, String> {
     let mut w = World::build_w2(cfg(disk), res("AS65000-AS65005", "10.0.0.0/16", "")).map_err(|e| e.to_string())?;
     let o = w.apply_pumped(&crate::ops::Op::Roa { ca: "ca".into(), add: vec!["10.0.1.0/24 => 65000".into()], del: vec![] });
@@ -58,7 +63,7 @@ fn exec(disk: bool, template: &std::path::Path, variant_full: &str, prefix: &[us
             return out;
         }
         // continue where the template's builder was
-        match World::reopen(cfg(true)) {
+        match World::reopen(if variant == "history" { cfg_history(true) } else { cfg(true) }) {
             Ok(w) => w,
             Err(e) => {
                 out.violations.push(("machinery".into(), format!("reopen: {e}")));
@@ -121,6 +126,28 @@ fn exec(disk: bool, template: &std::path::Path, variant_full: &str, prefix: &[us
             bodies.push(Box::new(move || vec![a()]));
             bodies.push(Box::new(move || vec![b()]));
         }
+        // a writer and two callers of the history API (history cache on):
+        // every listing is the recorded order, each command once
+        "history" => {
+            let hist = |target: &'static str| {
+                let k = w.krill.clone();
+                move || -> String {
+                    match k.ca_manager().ca_history(&ca(target), CommandHistoryCriteria { rows_limit: Some(10_000), ..Default::default() }) {
+                        Ok(h) => {
+                            let hv = serde_json::to_value(&h).unwrap_or_default();
+                            let versions: Vec<String> = hv["commands"].as_array().cloned().unwrap_or_default().iter().filter_map(|c| c["version"].as_u64()).map(|v| v.to_string()).collect();
+                            format!("hist#{}#{}", hv["total"].as_u64().unwrap_or(0), versions.join(","))
+                        }
+                        Err(e) => format!("hist-err: {e}"),
+                    }
+                }
+            };
+            let a = cmd("ca", vec![ROA_A], vec![]);
+            let (h1, h2, h3) = (hist("ca"), hist("ca"), hist("ca"));
+            bodies.push(Box::new(move || vec![a(), h1()]));
+            bodies.push(Box::new(move || vec![h2()]));
+            bodies.push(Box::new(move || vec![h3()]));
+        }
         // the same and a different entity
         "two-entities" => {
             let (a, p) = (cmd("ca", vec![ROA_A], vec![]), cmd("parent", vec![ROA_P], vec![]));
@@ -145,6 +172,17 @@ fn exec(disk: bool, template: &std::path::Path, variant_full: &str, prefix: &[us
     for o in &all {
         if o.starts_with("PANIC") {
             bad("panic", o.clone());
+        }
+        if let Some(rest) = o.strip_prefix("hist#") {
+            // "total#v1,v2,...": consecutive from 1, total = number listed
+            let (total, list) = rest.split_once('#').unwrap_or(("0", ""));
+            let versions: Vec<u64> = list.split(',').filter_map(|x| x.parse().ok()).collect();
+            let consecutive = versions.iter().enumerate().all(|(i, v)| *v == versions[0] + i as u64);
+            if !consecutive || total.parse::<usize>().ok() != Some(versions.len()) {
+                bad("history-listing", format!("a history listing taken during the run is not the recorded order, each command once: total {total}, versions {versions:?}"));
+            }
+        } else if o.starts_with("hist-err") {
+            bad("history-listing", o.clone());
         }
     }
     // --- the audit log of each entity
@@ -261,6 +299,9 @@ fn exec(disk: bool, template: &std::path::Path, variant_full: &str, prefix: &[us
             if let Some(reads) = result.outputs.get(2) {
                 let mut last_v = 0;
                 for r in reads {
+                    if r.starts_with("hist") {
+                        continue; // judged above
+                    }
                     let mut it = r.split('#');
                     if it.next() != Some("read") {
                         bad("reader", format!("read failed: {r}"));
@@ -378,9 +419,9 @@ pub fn run(tier: &Tier, args: &[String]) -> i32 {
     let mut samples: Vec<Value> = Vec::new();
     let mut total_exec = 0u64;
     let variants: Vec<(&str, bool)> = if tier.thorough {
-        vec![("same-roa", true), ("mixed", true), ("two-entities", true), ("same-roa", false), ("mixed", false), ("two-writers+real-locks", true), ("two-writers+real-locks", false)]
+vec![("same-roa", true), ("mixed", true), ("two-entities", true), ("history", true), ("same-roa", false), ("mixed", false), ("two-writers+real-locks", true), ("two-writers+real-locks", false)]
     } else {
-        vec![("same-roa", true), ("mixed", true), ("two-entities", true), ("same-roa", false), ("two-writers+real-locks", true)]
+vec![("same-roa", true), ("mixed", true), ("two-entities", true), ("history", true), ("same-roa", false), ("two-writers+real-locks", true)]
     };
     let only = crate::report::arg_value(args, "--variant");
     for (variant, disk) in variants {
